@@ -163,6 +163,18 @@ def run(repo: Repo, tier: str) -> Report:
         rep.ob("R-DIVGUARD", FILE, fname, "the normalisation is reached only with both variances above the threshold", len(fin_g) == 2,
                f"guards of the final return: {[g[:60] for g in d['final'].guards]}", f"guards of {norm_stmt(d['final'].stmt)}")
     divguard(rep, repo, kernels, ["autocorr_1d_int", "autocorr_1d_float"], flavours=("scalar",))
+    # ---- products and sums are formed in 64 bit whatever the input dtype (same value for int16 / float32 / float64 encodings)
+    from ..typedir import typed_facts
+    tf = [f for f in typed_facts(repo.root, ["autocorr", "autocorr_tyx"]) if f["kernel"] in ("autocorr_1d_int", "autocorr_1d_float") and f["ok"]]
+    rep.floor("typed autocorr_1d_* records", len(tf), 4)
+    WIDE = {"float64", "int64"}
+    for f in tf:
+        bad = [b for b in f["binops"] + f["inplace"] if b["fn"] in ("mul", "add", "iadd", "sub") and not (b["lhs"] in WIDE and b["rhs"] in WIDE)
+               and not (b["lhs"].startswith("array") or b["rhs"].startswith("array"))]
+        rep.ob("R-ACC", FILE, f["kernel"], f"running sums and products are formed in 64 bit for input {f['args'][0]}", not bad,
+               "; ".join(f"line {b['line']}: {b['lhs']} {b['fn']} {b['rhs']}" for b in bad[:4]) +
+               (": squares of float32 / int16 samples lose bits or wrap before they are accumulated, so the encodings disagree" if bad else ""),
+               f"{f['kernel']}({f['args'][0]}): operand types of sums and products", kind="typed IR")
 
     # ---- siblings: int vs float
     if len(desc) == 2:
